@@ -408,6 +408,12 @@ func Specs() map[string]*PropSpec {
 	deep("C09", "period lists of length 6 (read / monotone); message validation with 3 lockup and 3 vesting periods; liquid-vesting split of 5 periods (1 denomination) and 3 periods (2 denominations)",
 		vt("VerifC09_Read", "n", "6"), vt("VerifC09_Mono", "n", "6"), vt("VerifC09_MessagePeriods", "lock", "3", "vest", "3"),
 		lt("VerifC11_Split", "n", "5"), lt("VerifC11_Split", "n", "3", "denoms", "2"))
+	deep("C12", "funding over 4 accounts; transfers between 3 accounts over prefix denominations",
+		dk("VerifC12_Fund", "accounts", "4"), dk("VerifC12_Transfer", "accounts", "3", "prefix", "1"))
+	deep("C06", "extension-option lists of up to 5 entries on the router",
+		Inst{Pkg: "app/ante", Fn: "VerifC06_ExtensionOptions", Params: pm("max", "5")})
+	deep("C18", "the Ethereum vesting decorator over 3 messages", nr("app/ante/evm", "VerifC08_EthAnte", "msgs", "3"))
+	deep("C08", "the Ethereum vesting decorator over 3 messages of a vesting account", nr("app/ante/evm", "VerifC08_EthAnte", "msgs", "3"))
 	deep("C19", "ucdao ledger over 3 accounts x 3 denominations", er("x/ucdao/keeper", "VerifC19_Ucdao", "accounts", "3", "denoms", "3"))
 	return m
 }
